@@ -130,3 +130,60 @@ class C02(CodecBase):
 
 
 CHECKS = {'C01': C01, 'C02': C02}
+
+
+def count_items(items):
+    return sum(1 + sum(count_items(el) for el in it.get('g', [])) for it in items)
+
+
+class C11(CodecBase):
+    id = 'C11'
+    examples = 3000
+    rule = ('Messages generated as for C01 (nested groups included). For each: clone() before the original is encoded; copy_legal of body, header and '
+            'trailer into a fresh deep-constructed message of the same type; move_legal likewise (source destroyed afterwards, under ASan). '
+            'Oracle: each result, encoded once, is byte-identical to the reference encoding of the generated message and to the original\'s own '
+            'encoding; copy counts == number of fields and group-element fields generated; move counts == number of top-level fields. '
+            'Non-trivial: >=1 group with >=2 elements or nesting >=2.')
+
+    def __init__(self, tier):
+        super().__init__(tier)
+        if tier == 'thorough':
+            self.examples = 100000
+            self.workers = 16
+
+    def run(self, case, ex):
+        sch = self.schemas[case['schema']]
+        spec = case['spec']
+        toks = fixref.spec_tokens(spec)
+        ref = fixref.ref_encode(sch, spec)
+        if len(ref) > 7000:
+            return {'excluded': ['longer_than_7000_bytes']}
+        ans = ex.call('build %s clone,copy,enc %s' % (case['schema'], toks))
+        mv = ex.call('movebuild %s %s' % (case['schema'], toks))
+        shown = ref.replace('\x01', '|')
+        f = fixref.spec_features(sch, spec)
+
+        def wire(x):
+            return bytes.fromhex(x).decode('latin-1').replace('\x01', '|') if isinstance(x, str) else repr(x)
+        for key, src in (('enc', ans), ('clone', ans), ('copy', ans), ('move', mv)):
+            got = src.get(key)
+            if not isinstance(got, str) or bytes.fromhex(got).decode('latin-1') != ref:
+                raise Violation('C11: %s of the message does not encode to the original content\n %-5s: %s\n ref  : %s' % (
+                    {'enc': 'the original', 'clone': 'clone()', 'copy': 'copy_legal target', 'move': 'move_legal target'}[key], key, wire(got), shown))
+        want = [count_items(spec['b']), count_items(spec['h']), count_items(spec['t'])]
+        if ans.get('copy_n') != want:
+            raise Violation('C11: copy_legal reported %r fields copied, generated message has %r (body, header, trailer)\n ref: %s' % (
+                ans.get('copy_n'), want, shown))
+        wantm = [len(spec['b']), len(spec['h']), len(spec['t'])]
+        if mv.get('move_n') != wantm:
+            raise Violation('C11: move_legal reported %r fields moved, generated message has %r top-level fields\n ref: %s' % (
+                mv.get('move_n'), wantm, shown))
+        return {
+            'nontrivial': f['multi_elem'] or f['max_depth'] >= 2,
+            'classes': ['schema:' + case['schema'], 'depth%d' % f['max_depth']] + (['multi_elem'] if f['multi_elem'] else []),
+            'key': case,
+            'sample': {'schema': case['schema'], 'type': spec['type'], 'wire': shown},
+        }
+
+
+CHECKS['C11'] = C11
